@@ -293,7 +293,7 @@ impl Property for C08 {
 
     fn plan(&self, tier: Tier) -> Vec<Stage<Case>> {
         vec![
-            Stage::random("add_months", tier.pick(300_000, 10_000_000), case_strategy),
+            Stage::random("add_months", tier.pick(400_000, 30_000_000), case_strategy),
             Stage::enumerate("month-tables", true, true, |k, n| {
                 let r = chunk(231 * 12, k, n);
                 Box::new(r.map(|i| Case::MonthTable { year: 1970 + (i / 12) as i32, month: (i % 12) as u32 + 1 }))
@@ -310,7 +310,7 @@ impl Property for C08 {
     }
 
     fn floors(&self, tier: Tier) -> Vec<Floor> {
-        let n = tier.pick(300_000u64, 10_000_000);
+        let n = tier.pick(400_000u64, 30_000_000);
         vec![
             Floor { label: "carry:total<=0", min: n / 20 },
             Floor { label: "carry:total=12", min: n / 50 },
